@@ -66,7 +66,7 @@ def setup_workdir(root, image_id, files):
 
 
 def run_publish(work, image_id, listing, fault):
-    """fault: None | ('before', i) | ('during', i) | ('after', i) | ('rename',).  Returns the exception (or None)."""
+    """fault: None | ('before', i) | ('during', i) | ('after', i) | ('oserr', i) | ('outage', i, m) | ('rename',).  Returns the exception (or None)."""
     from toasty.pipeline import PipelineManager
     mgr = PipelineManager(work)
     real_put = mgr._pipeio.put_item
@@ -78,6 +78,9 @@ def run_publish(work, image_id, listing, fault):
         state["n"] += 1
         if fault and fault[0] == "before" and fault[1] == i:
             raise Boom("fault before transfer %d" % i)
+        if fault and fault[0] == "outage" and fault[1] <= i < fault[1] + fault[2]:
+            # the store is unreachable for this and the following calls (an outage of fault[2] consecutive attempts)
+            raise OSError(110, "Connection timed out (injected outage)")
         if fault and fault[0] == "during" and fault[1] == i:
             return real_put(*path, source=HalfSource(source.read()))
         if fault and fault[0] == "oserr" and fault[1] == i and not flaky["fired"]:
@@ -182,7 +185,7 @@ def safe(obs, files):
 def to_run(listing, fault, n):
     if fault is None:
         k, mid, ren = n, 0, 1
-    elif fault[0] == "before":
+    elif fault[0] in ("before", "outage"):
         k, mid, ren = fault[1], 0, 0
     elif fault[0] in ("during", "oserr"):
         k, mid, ren = fault[1], 1, 0
@@ -204,7 +207,7 @@ def main():
     # exhaustive single-fault histories for n = 2, 3 over all listing orders
     for n in (2, 3):
         files = names[:n]
-        faults = [None, ("rename",)] + [(ph, i) for i in range(n) for ph in ("before", "during", "after")]
+        faults = [None, ("rename",)] + [(ph, i) for i in range(n) for ph in ("before", "during", "after")] + [("outage", i, m) for i in range(n) for m in (1, 3, 99)]
         for perm in itertools.permutations(files):
             for f in faults:
                 histories.append((files, [(list(perm), f)]))
@@ -218,7 +221,7 @@ def main():
         for _r in range(rng.choice([1, 2, 2, 3])):
             perm = files[:]
             rng.shuffle(perm)
-            f = rng.choice([None, ("rename",)] + [(ph, i) for i in range(n) for ph in ("before", "during", "during", "after", "oserr")])
+            f = rng.choice([None, ("rename",)] + [(ph, i) for i in range(n) for ph in ("before", "during", "during", "after", "oserr")] + [("outage", rng.randrange(n), rng.choice([1, 2, 3, 4, 99]))])
             runs.append((perm, f))
         histories.append((files, runs))
     lines, py = [], []
